@@ -6,6 +6,7 @@ import math
 import abc
 from typing import Union, Sequence, Dict, List, Callable, Any, Optional
 
+import numpy as np
 from river.metrics.base import Metric
 
 from ixai.imputer import BaseImputer, MarginalImputer
@@ -162,6 +163,15 @@ class BaseIncrementalFeatureImportance(BaseIncrementalExplainer):
             y_i (Any, optional): Target label of the current observation. Defaults to `None`
         """
         self._storage.update(x=x_i, y=y_i)
+
+
+def _loss_value(loss):
+    """Turns a loss reported as a NumPy scalar into the equal Python number.
+
+    Differences of unsigned NumPy integers wrap around (0 - 1 = 255 for ``np.uint8``) and ``np.bool_`` does not support
+    subtraction at all; Python numbers (and exact types such as ``Fraction``) are passed through unchanged.
+    """
+    return loss.item() if isinstance(loss, np.generic) else loss
 
 
 def _get_mean_model_output(model_outputs: List[dict]) -> dict:
